@@ -363,6 +363,17 @@ func genPub6(rt *rapid.T, live bool) string {
 	if !live && rapid.IntRange(0, 3).Draw(rt, "p6") == 0 {
 		return rapid.SampledFrom([]string{"2606:4700:4700::1111", "2a00:1450:4001:81b::200e", "2620:fe::fe", "fec0::1", "2000::"}).Draw(rt, "real6")
 	}
+	return genDoc6(rt, live)
+}
+
+// genDoc6: a non-internal IPv6 address that is safe to dial: a documentation
+// address (the dial may hang until the deadline) or, for most live cases, a
+// global-scope multicast address (ff0e::/16: not link-local, so not covered by
+// the statement; a TCP connect to it fails at once, which keeps cases fast).
+func genDoc6(rt *rapid.T, live bool) string {
+	if live && rapid.IntRange(0, 9).Draw(rt, "mc6") != 4 {
+		return fmt.Sprintf("ff0e::%x", rapid.IntRange(1, 0xffff).Draw(rt, "mc"))
+	}
 	return fmt.Sprintf("2001:db8::%x", rapid.IntRange(1, 0xffff).Draw(rt, "doc6"))
 }
 
@@ -439,7 +450,7 @@ func genStepPublic(rt *rapid.T, live bool, fam int) dnsStep { // fam: 0 both, 4,
 // address fails to connect (what a dialer does after that is then observable).
 func genStepUnreachable(rt *rapid.T) dnsStep {
 	var st dnsStep
-	fam := rapid.SampledFrom([]int{4, 4, 4, 4, 4, 0, 4, 4, 4, 6, 4, 4}).Draw(rt, "ufam")
+	fam := rapid.SampledFrom([]int{4, 4, 0, 4, 6, 0, 4, 4}).Draw(rt, "ufam")
 	if fam != 6 {
 		for i, n := 0, rapid.IntRange(1, 2).Draw(rt, "n4"); i < n; i++ {
 			// on the loopback-only port the non-internal local address refuses at
@@ -452,7 +463,7 @@ func genStepUnreachable(rt *rapid.T) dnsStep {
 		}
 	}
 	if fam != 4 {
-		st.AAAA = append(st.AAAA, fmt.Sprintf("2001:db8::%x", rapid.IntRange(1, 0xffff).Draw(rt, "doc6")))
+		st.AAAA = append(st.AAAA, genDoc6(rt, true))
 	}
 	return st
 }
@@ -519,14 +530,14 @@ func genC38DNS(rt *rapid.T) c38DNSCase {
 	}
 	c.Port = "all"
 	lo := false
-	if getProbeServer().loPort != 0 && (c.Shape == "unreachable-then-internal" || rapid.IntRange(0, 19).Draw(rt, "lo") == 11) {
+	if getProbeServer().loPort != 0 && (c.Shape == "unreachable-then-internal" || rapid.IntRange(0, 9).Draw(rt, "lo") == 6) {
 		c.Port, lo = "lo", true
 	}
 	switch c.Shape {
 	case "dual-then-internal":
 		c.Steps = append(repeat(genStepPublic(rt, live, 0)), genStepInternal(rt, true, lo))
 	case "single-rebind":
-		c.Steps = append(repeat(genStepPublic(rt, live, rapid.SampledFrom([]int{4, 4, 4, 4, 4, 4, 4, 6}).Draw(rt, "fam"))), genStepInternal(rt, true, lo))
+		c.Steps = append(repeat(genStepPublic(rt, live, rapid.SampledFrom([]int{4, 4, 6, 4, 4, 6}).Draw(rt, "fam"))), genStepInternal(rt, true, lo))
 	case "unreachable-then-internal":
 		c.Steps = append(repeat(genStepUnreachable(rt)), genStepInternal(rt, true, lo))
 	case "all-internal":
@@ -539,7 +550,7 @@ func genC38DNS(rt *rapid.T) c38DNSCase {
 			c.Steps = append(c.Steps, genStepInternal(rt, true, lo))
 		}
 	case "stable-public":
-		c.Steps = repeat(genStepPublic(rt, live, rapid.SampledFrom([]int{0, 0, 0, 4, 4, 4, 4, 6}).Draw(rt, "fam")))
+		c.Steps = repeat(genStepPublic(rt, live, rapid.SampledFrom([]int{0, 0, 4, 4, 6}).Draw(rt, "fam")))
 	case "free":
 		for i, n := 0, rapid.IntRange(1, 4).Draw(rt, "ns"); i < n; i++ {
 			switch rapid.IntRange(0, 5).Draw(rt, "kind") {
@@ -606,7 +617,7 @@ func runC38DNS(s *kit.Session, f kit.Failer, c c38DNSCase) {
 	active := c.active()
 	sc := c.schedClass()
 	sigBase := c.Mode + ":" + sc
-	classes := []string{"mode:" + c.Mode, "sched:" + sc, "spell:" + c.Spell, "port:" + c.Port}
+	classes := []string{"mode:" + c.Mode, "sched:" + sc, "shape:" + c.Shape, "spell:" + c.Spell, "port:" + c.Port}
 	if !active {
 		classes = append(classes, "allow-switch-on")
 	}
@@ -857,9 +868,9 @@ func runC38DNS(s *kit.Session, f kit.Failer, c c38DNSCase) {
 
 func TestC38Rebind(t *testing.T) {
 	s := kit.Begin(t, "C38", "rebind",
-		"host NAMES resolved by an in-process DNS responder installed as net.DefaultResolver (pure-Go resolver over an in-memory pipe; zone generated per case): a name has an answer schedule (the k-th lookup gets the k-th A/AAAA sets) drawn from shapes dual-stack-public-then-internal, single-family-rebind, unreachable-public-then-internal, all-internal, mixed-internal-first-answer, stable-public, free mixtures, IP literal; public = a non-internal address of this machine or documentation addresses, internal = addresses that arrive at the harness listener (127/8, 0.0.0.0, ::1, ::, IPv4-mapped loopback in AAAA, own private addresses) plus unreachable RFC1918/link-local/ULA decoys; name spelled lower/upper/mixed/rooted; run through guardLLMURL, CheckRedirect, guardedDialContext, the guarded client, guard-then-client and a 30x redirect to the name, with the URL port = the listener's port. Oracle (guard on): no connection is accepted by the listener on an internal local address, no returned conn has an internal RemoteAddr, no successful response is served from an internal address or when every resolution held an internal address; guard decisions: served answer holds an internal address => error, all served addresses certainly public => nil. Failed/timed-out dials to public addresses are counted, never judged. Non-trivial: a name with at least one lookup served whose schedule changes between queries and holds an internal address")
+		"host NAMES resolved by an in-process DNS responder installed as net.DefaultResolver (pure-Go resolver over an in-memory pipe; zone generated per case): a name has an answer schedule (the k-th lookup gets the k-th A/AAAA sets) drawn from shapes dual-stack-public-then-internal, single-family-rebind, unreachable-public-then-internal, all-internal, mixed-internal-first-answer, stable-public, free mixtures (incl. empty answers), IP literal. Non-internal answers: a non-internal address of this machine, documentation addresses (203.0.113.0/24, 2001:db8::/32), global-scope multicast ff0e::/16 (connect fails at once), real public addresses where nothing is dialed; internal answers: addresses that arrive at the harness listeners (127/8, 0.0.0.0, ::1, ::, IPv4-mapped loopback/unspecified in AAAA, own private addresses) plus unreachable RFC1918/link-local/ULA decoys. The URL/dial port is the port of a listener bound on every local address (a vetted local address connects) or of listeners bound on 127.0.0.1/::1 only (every vetted address fails at once, what the dialer does next is observable). Name spelled lower/upper/mixed/rooted; run through guardLLMURL, CheckRedirect, guardedDialContext, the guarded client, guard-then-client and a 30x redirect to the name. Oracle (guard on): every listener logs the local address of each accepted connection: none may be internal; no returned conn has an internal RemoteAddr; no successful response is served from an internal address (the body names the accepting address) or while every resolution held an internal address; guard decisions: served answer holds an internal address => error, all served addresses certainly public => nil. Failed/timed-out dials to public addresses are counted, never judged. Non-trivial: a name with at least one lookup served whose schedule changes between queries and holds an internal address")
 	defer s.End()
-	s.Assume("the Go resolver (PreferGo) with a custom Dial is the resolver the code under test uses via net.DefaultResolver; answers are served from memory, so no verdict depends on time: deadlines (60/100 ms) only bound dials to unroutable documentation addresses")
+	s.Assume("the Go resolver (PreferGo) with a custom Dial is the resolver the code under test uses via net.DefaultResolver; answers are served from memory, so no verdict depends on time: deadlines (60/100 ms) only bound dials to unroutable documentation addresses, and a violation is always a positively observed connection")
 	s.Assume("net.DefaultResolver is swapped per case and restored; cases run sequentially in one process")
 
 	var c c38DNSCase
